@@ -748,6 +748,8 @@ flatcc_builder_ref_t flatcc_builder_embed_buffer(flatcc_builder_t *B,
     if (align_buffer_end(B, &align, block_align, is_nested)) {
         return 0;
     }
+    /* The enclosing buffer must be aligned at least like the embedded one. */
+    set_min_align(B, align);
     pad = front_pad(B, (uoffset_t)(size + (with_size ? field_size : 0)), align);
     write_uoffset(&size_field, (uoffset_t)size + pad);
     init_iov();
